@@ -124,14 +124,14 @@ def make_recipes(ctx, rows, per_setting):
 def run(ctx):
     rows = table_rows()
     ctx.model_check("mc/MC_Molecules.tla", MC_CFG % ctx.pick(3, 4), name="MC_Molecules", timeout=ctx.pick(300, 1500))
-    recs = make_recipes(ctx, rows, ctx.pick(1, 6))
+    recs = make_recipes(ctx, rows, ctx.pick(1, 16))
     ctx.notes["structures_generated"] = len(recs)
     traces = pool_map(drive, recs)
     ctx.validate("trace/Trace_Molecules.tla", traces, batch=2000, timeout=1800)
     ctx.rule = ("every tabulated setting x %d seeded molecular crystals: 1-3 rigid mini-molecules (2-5 atoms of C/N/O/F/H, equal "
                 "or different sizes) on general grid positions (N=48), deliberately placed across cell faces/edges/corners, "
                 "cell from a symmetrised integer Gram matrix scaled so that non-bonded contacts exceed 2.2 A; the domain guard "
-                "(all contacts clear of the bonding threshold) is evaluated by TLC; non-trivial = group order > 1" % ctx.pick(1, 6))
+                "(all contacts clear of the bonding threshold) is evaluated by TLC; non-trivial = group order > 1" % ctx.pick(1, 16))
     ctx.explanation = "settings enumerated completely; placements, compositions and cells sampled"
     ctx.assumptions = ["bonding thresholds are the library's covalent radii + 0.4 A with a +-0.08 A guard band evaluated by TLC",
                        "molecule coordinates are projected to the 1/48 grid (residual > 1e-6 rejected)"]
